@@ -568,8 +568,10 @@ def gen_oracle_form(rng):
             sel = None
         elif variant == "last":
             row = {"type": "text", "name": nm, "label": "L"}
-            where = rng.choice(["default", "constraint", "relevant", "required", "calculation", "choice_filter"])
-            if where == "default":
+            where = rng.choice(["default", "constraint", "relevant", "required", "calculation", "choice_filter", "label", "hint"])
+            if where in ("label", "hint"):
+                row[where] = "Last time: ${last-saved#q0}"
+            elif where == "default":
                 row["default"] = "${last-saved#q0}"
             elif where == "calculation":
                 row = {"type": "calculate", "name": nm, "calculation": "${last-saved#q0} + 1"}
